@@ -58,8 +58,11 @@ class Lexer:
             elif ch == "<":
                 self.consume_bracketed()
             elif ch == ":":
-                self.position += 1
-                length = self.read_symbol()
+                self.next_char()
+                if self.position < len(self.text):
+                    length = self.read_symbol()
+                else:
+                    length = 0
                 self.set_token(Token.FMT, length=length)
             elif ch == "-":
                 self.set_token(Token.MINUS)
@@ -130,7 +133,7 @@ class Lexer:
             # Hex escapes
             peek2 = self.peek_char(2)
             peek3 = self.peek_char(3)
-            if peek2 in self.HEX_DIGITS and peek3 in self.HEX_DIGITS:
+            if peek2 and peek3 and peek2 in self.HEX_DIGITS and peek3 in self.HEX_DIGITS:
                 ordv = int(peek2 + peek3, base=16)
                 return (chr(ordv), 3)
             else:
@@ -262,9 +265,10 @@ class Lexer:
                         if self.text[self.position] == "*" and self.peek_char() == "/":
                             break
                         self.next_char()
-                    # Skip the "*/" at the end of the comment.
-                    self.next_char()
-                    self.next_char()
+                    # Skip the "*/" at the end of the comment (if it was closed at all).
+                    if self.position < len(self.text):
+                        self.next_char()
+                        self.next_char()
                 else:
                     break
             else:
